@@ -72,6 +72,7 @@ class Cli(Engine):
         "C09": ["EXIT", "NAMED"],
         "C14": ["EXIT", "JS"],
         "C03": ["EXIT"],
+        "C17": ["EXIT"],
         "C19": ["WR"],
         "C20": ["OUT", "JS", "OM", "TR", "VR", "EM"],
     }
@@ -109,6 +110,8 @@ class Cli(Engine):
             return rec[0] if any(v not in ("-", "") for v in _per_step(sec.get("NAMED"))) else None
         if prop == "C03":
             return rec[0] if any(v != "-" for v in _per_step(sec.get("LOG"))) else None
+        if prop == "C17":
+            return rec[0] if "home=" in rec[0] else None
         if prop == "C14":
             # a forced invocation that really executed something
             return rec[0] if ("force" in rec[0] or " f," in rec[0] or " f " in rec[0]) and any(v != "-" for v in _per_step(sec.get("LOG"))) else None
@@ -155,6 +158,7 @@ class Cli(Engine):
         return {
             "C09": "seeded random spokfiles (1-4 tasks x 1-4 commands, commands failing with status 1..255 in requested tasks and in dependencies) x {plain, --quiet, --json, --force, ...} x cwd in {root, nested}, each case a sequence of 2-3 invocations of the real binary in a sandbox HOME; non-trivial = distinct case in which the side-effect log shows a failing command",
             "C03": "cli engine (the real binary) as extra engine of C03: seeded random spokfiles of 1-5 tasks with task dependencies, half of them with a user-defined `clean` task that depends on others, as sequences `run several names (closures overlap); --clean [names]; run [--force] names or the default task [; --clean --force names]`; judged from the side-effect log: every task at most once per invocation, nothing outside the closure of what the action asks for, dependencies first, nothing of the closure missing when all went well; non-trivial = distinct case in which commands ran",
+            "C17": "cli engine (the real binary) as extra engine of C17: a valid spokfile in `proj`, every working directory of the sandbox x $HOME in {the sandbox root, proj, proj/sub, proj/sub/deep, an unrelated directory} x a listing action (--show / --vars): the invocation succeeds exactly when the model of Find (working directory upwards, not above $HOME) finds the spokfile; non-trivial = case with a $HOME inside the sandbox",
             "C14": "cli engine (the real binary): seeded random spokfiles (1-4 tasks with file dependencies, always a default task, nothing failing) as sequences `plain run; --force|-f (± --json/--quiet/--debug) with the same task names or none (the default task); plain run [; forced run]`, cwd in {root, nested}; judged from the side-effect log: every task of the forced closure executed, none reported skipped; non-trivial = distinct case whose forced invocation executed commands",
             "C19": "exhaustive: every subset of the nine boolean flags x {valid, syntax error, duplicate task, ...} spokfiles, one invocation each; plus seeded random trees x valid/invalid spokfiles x action flags x cwd in {root, nested, outside} as sequences of 1-3 invocations (fmt twice, init twice, run twice); non-trivial = distinct case in which an invocation completed its action or changed the sandbox",
             "C20": "seeded random spokfiles (1-5 tasks, 0-4 commands printing distinct markers to stdout/stderr, 0-5 variables incl. join(), docstrings, with/without a default task) x report flags, sequences of 1-3 invocations so that skipped tasks appear; non-trivial = distinct case with a report / listing on stdout or an executed command",
